@@ -61,6 +61,9 @@ TRANSLATORS.update({
            "-> gen/MultipartGen.v)",
     "C14": _T + "harness/py2v_headers.py + coq/lib/PyHeaders.v (class "
            "Headers -> gen/HeadersGen.v)",
+    "C17": _T + "harness/py2v_shared.py (syntactic census of process-wide "
+           "mutable objects, their writers and escapes -> gen/SharedGen.v; "
+           "an under-approximation, judged by model/SharedState.v)",
     "C18": _T + "harness/py2v_param.py + coq/lib/PyParam.v (_parseparam, "
            "parse_header -> gen/ParamGen.v)",
     "C19": _T + "harness/py2v_registry.py + coq/lib/PyRegistry.v (the "
